@@ -1,4 +1,6 @@
 """C01 - Individual log-likelihood sums each observation's density exactly once."""
+import math
+
 import numpy as np
 from hypothesis import strategies as st
 
@@ -21,13 +23,28 @@ ASSUMPTIONS = [
     'for tied times the order of the pointwise values within the tie group is not specified (compared as multiset)']
 REQUIRED = ['tmode:identical', 'tmode:disjoint', 'tmode:nested', 'tmode:overlap', 'tmode:free', 'tmode:single',
             'tied', 'oos', 'decreasing', 'len1', 'em:gauss', 'em:mult', 'em:cm', 'em:lognorm', 'reduced_em',
-            'unmeasured_output_first', 'negative_outputs:cm']
+            'unmeasured_output_first', 'negative_outputs:cm', 'long_series']
 
 
 @st.composite
 def _spec(draw):
     ll = llbuild.draw_ll(draw, allow_empty=True)
+    long_ = None
+    if gen.chance(draw, 0.06):
+        # long series at a common magnitude far from 1 (tumour volumes ~1e3, concentrations ~1e-4): sums of logs are
+        # fine, products over the series are not. The values come from a seeded generator (the spec stores them).
+        import random
+        long_ = dict(n=draw(st.sampled_from([120, 300, 700])), mag=draw(st.sampled_from([1e-4, 1e-2, 1e3])),
+                     seed=draw(st.integers(0, 10 ** 6)))
+        rng = random.Random(long_['seed'])
+        o = draw(st.integers(0, ll['n_out'] - 1))
+        ll['times'][o] = [gen.r6(0.05 * (k + 1)) for k in range(long_['n'])]
+        ll['obs'][o] = [gen.r6(long_['mag'] * math.exp(rng.uniform(-0.7, 0.7))) for _ in range(long_['n'])]
+        ll['tied'] = False
     params = llbuild.draw_ll_params(draw, ll)
+    if long_ is not None:
+        # model outputs of the same magnitude as the observations
+        params = [gen.r6(v * long_['mag']) for v in params[:ll['n_par']]] + params[ll['n_par']:]
     signed = False
     if gen.chance(draw, 0.25):
         sp = llbuild.draw_signed_params(draw, ll, params)
@@ -53,7 +70,7 @@ def _spec(draw):
             decreasing = True
     ll['flat_single'] = ll['n_out'] == 1 and draw(st.booleans())
     prior = llbuild.draw_prior(draw, llbuild.ll_n_parameters(ll), params)
-    return dict(ll=ll, params=params, oos=oos, decreasing=decreasing, prior=prior, signed=signed)
+    return dict(ll=ll, params=params, oos=oos, decreasing=decreasing, prior=prior, signed=signed, long=long_)
 
 
 def strategy(tier):
@@ -76,6 +93,8 @@ def classify(spec):
         first = min(o for o in range(ll['n_out']) if ll['times'][o])
         if first > 0:
             labs.append('unmeasured_output_first')
+    if spec.get('long'):
+        labs.append('long_series')
     if spec.get('signed'):
         labs.append('negative_outputs')
         if any(e['kind'] == 'cm' for e in ll['ems']):
@@ -130,7 +149,8 @@ def check(case):
         return
 
     with case.clause('construct'):
-        L = llbuild.build_ll(ll)
+        user_model = llbuild.build_model(ll)
+        L = llbuild.build_ll(ll, model=user_model)
     if case.fails:
         return
 
@@ -186,3 +206,15 @@ def check(case):
                    what='log-posterior = log-prior + log-likelihood')
         case.equal(P.n_parameters(), L.n_parameters(), 'posterior n_parameters')
         case.equal(P.get_parameter_names(), L.get_parameter_names(), 'posterior names')
+
+    # The user goes on using their own model object (e.g. for a second likelihood over the outputs in another order):
+    # the likelihood constructed before keeps scoring its observations against its own outputs.
+    if s['oos'] is None:
+        with case.clause('user_model_reused'):
+            before = L(params.copy())
+            if ll['n_out'] >= 2:
+                user_model.set_outputs(list(reversed(user_model.outputs())))
+            user_model.enable_sensitivities(True)
+            case.close(L(params.copy()), before, rtol=0, atol=0,
+                       what='log-likelihood after the user changed their model object (outputs reversed, sensitivities on)')
+            case.close(L(params.copy()), want, rtol=1e-9, what='log-likelihood after the user changed their model object')
